@@ -27,7 +27,7 @@ import traceback
 ROOT = os.path.dirname(os.path.dirname(os.path.abspath(__file__)))
 # evidence/ and violations/ normally live in /verif; VERIF_OUT redirects them (parallel evaluation of changed trees)
 OUT = os.environ.get("VERIF_OUT") or ROOT
-UNIT_TIMEOUT = int(os.environ.get("VERIF_UNIT_TIMEOUT", "900"))
+UNIT_TIMEOUT = int(os.environ.get("VERIF_UNIT_TIMEOUT", "1800"))
 
 
 def h64(obj):
